@@ -40,3 +40,9 @@ package utils
 //@   props C04
 //@   pure
 //@ end
+
+// the name of an aggregation function is a pure function of the enum value
+//@ func (AggregateFunctions).String
+//@   props C06
+//@   pure
+//@ end
